@@ -1811,6 +1811,28 @@ func entryLocked(p *Prog, mi *multiInfo) map[*ssa.Function]bool {
 				if locked[caller] && len(caller.Params) > 0 && sameVar(recv, caller.Params[0]) {
 					continue
 				}
+				// the receiver is a value field (&x.inner), or a field of a field, of an object whose lock is held or
+				// that the caller entered locked on
+				partOfLocked := false
+				for cur, d := stripConv(recv), 0; d < 4; d++ {
+					fa, isFA := cur.(*ssa.FieldAddr)
+					if !isFA {
+						if ld, isL := isLoad(cur); isL {
+							fa, isFA = ld.(*ssa.FieldAddr)
+						}
+					}
+					if !isFA {
+						break
+					}
+					if heldAt(fa.X, in) || (locked[caller] && len(caller.Params) > 0 && sameVar(fa.X, caller.Params[0])) {
+						partOfLocked = true
+						break
+					}
+					cur = stripConv(fa.X)
+				}
+				if partOfLocked {
+					continue
+				}
 				ok = false
 				break
 			}
@@ -2050,7 +2072,7 @@ func ruleCONC6(w *World) []Ob {
 	truncOf := func(v ssa.Value, fa *ssa.FieldAddr) bool {
 		var rec func(v ssa.Value, d int) bool
 		rec = func(v ssa.Value, d int) bool {
-			if v == nil || d > 4 {
+			if v == nil || d > 8 {
 				return false
 			}
 			switch x := v.(type) {
@@ -2108,6 +2130,14 @@ func ruleCONC6(w *World) []Ob {
 				}
 			case *ssa.Extract:
 				return rec(x.Tuple, d+1)
+			case *ssa.Phi:
+				// the truncation grown on some paths only: every incoming value starts from it
+				for _, e := range x.Edges {
+					if !rec(e, d+1) {
+						return false
+					}
+				}
+				return len(x.Edges) > 0
 			}
 			return false
 		}
@@ -2171,8 +2201,92 @@ func ruleCONC6(w *World) []Ob {
 			scratch[r] = true
 		}
 	}
+	// write-only counters: the value read from the field flows nowhere but through an arithmetic operation back into
+	// the same field (x.n++, x.total += k): whatever one root leaves there, no result can depend on it
+	counter := map[fieldRef]bool{}
+	for r := range by {
+		okAll, nReads, nWrites := true, 0, 0
+		for _, a := range ca.acc {
+			if a.ref != r {
+				continue
+			}
+			if a.write {
+				nWrites++
+				st, isSt := a.instr.(*ssa.Store)
+				if !isSt {
+					okAll = false
+					break
+				}
+				// what is stored: arithmetic on a load of the same field, or a constant
+				if _, isK := st.Val.(*ssa.Const); isK {
+					continue
+				}
+				bo, isB := st.Val.(*ssa.BinOp)
+				if !isB {
+					okAll = false
+					break
+				}
+				fromSelf := false
+				for _, op := range []ssa.Value{bo.X, bo.Y} {
+					if ld, isL := isLoad(op); isL {
+						if f2, isFA := ld.(*ssa.FieldAddr); isFA && f2.Field == a.addr.Field && sameVar(f2.X, a.addr.X) {
+							fromSelf = true
+						}
+					}
+				}
+				if !fromSelf {
+					okAll = false
+					break
+				}
+				continue
+			}
+			nReads++
+			ld, isV := a.instr.(ssa.Value)
+			if !isV || ld.Referrers() == nil {
+				okAll = false
+				break
+			}
+			for _, rf := range *ld.Referrers() {
+				switch x := rf.(type) {
+				case *ssa.DebugRef:
+				case *ssa.BinOp:
+					if x.Referrers() == nil {
+						okAll = false
+						break
+					}
+					for _, rf2 := range *x.Referrers() {
+						st, isSt := rf2.(*ssa.Store)
+						if _, isDbg := rf2.(*ssa.DebugRef); isDbg {
+							continue
+						}
+						f2, isFA := ssa.Value(nil), false
+						if isSt {
+							_, isFA = st.Addr.(*ssa.FieldAddr)
+							f2 = st.Addr
+						}
+						if !isSt || !isFA || st.Val != ssa.Value(x) || f2.(*ssa.FieldAddr).Field != a.addr.Field || !sameVar(f2.(*ssa.FieldAddr).X, a.addr.X) {
+							okAll = false
+						}
+					}
+				default:
+					okAll = false
+				}
+			}
+			if !okAll {
+				break
+			}
+		}
+		if okAll && nWrites > 0 {
+			counter[r] = true
+		}
+		_ = nReads
+	}
 	for _, r := range refs {
 		a := by[r]
+		if counter[r] {
+			l.ok("shared "+r.typ, "field "+r.field+" written by worker-reachable code", a.pos, "a write-only counter: in worker-reachable code the value read from the field flows only through an arithmetic operation back into the same field, so nothing computed for a root can depend on it", false, "learned")
+			continue
+		}
 		if scratch[r] {
 			l.ok("shared "+r.typ, "field "+r.field+" written by worker-reachable code", a.pos, "a scratch buffer: every writer refills it from its own truncation (buf[:0]) and every read follows such a refill in the same function, so only capacity survives from one root to the next", false, "learned")
 			continue
